@@ -67,51 +67,84 @@ def setup(ctx):
                               if len(lst) == 1 and not lst[0].fast and lst[0].reaction not in ('b', '2n'))
 
     orig_dt = A.Sample.decay_time
-    orig_fr = A.find_root
+    orig_fr = getattr(A, 'find_root', None)
     reach = Reach()
     reach.watch(orig_dt, 'decay_time.calls')
-    reach.watch(orig_fr, 'find_root.calls')
-    reach.watch_line_matching(orig_fr, 'x -= fx / df(x)', 'find_root.iteration_lines')
+    if getattr(orig_fr, '__code__', None) is not None:
+        reach.watch(orig_fr, 'find_root.calls')
+        try:
+            reach.watch_line_matching(orig_fr, 'x -= fx / df(x)', 'find_root.iteration_lines')
+        except Exception:  # noqa - no source text for the function
+            ctx.count('anchor_missing.reach.find_root.iteration_lines')
+    else:
+        orig_fr = None
+        ctx.note('activation.find_root not found as a Python function: no counting wrapper / acceptance probe')
     reach.watch_line_matching(orig_dt, 'return 0', 'decay_time.return_no_activity', occurrence=0)
     reach.watch_line_matching(orig_dt, 'return 0', 'decay_time.early_exit', occurrence=1)
     reach.watch_line_matching(orig_dt, 'raise RuntimeError', 'decay_time.raise_RuntimeError')
     reach.watch_line_matching(orig_dt, 'percent_error = ', 'decay_time.acceptance_test')
     _state['reach'] = reach
 
-    def decay_time_with_postcondition(self, target):
+    def decay_time_with_postcondition(self, *args, **kw):
         post = _state['post']
         post['calls'] += 1
         try:
-            t = orig_dt(self, target)
+            t = orig_dt(self, *args, **kw)
         except BaseException:
             post['raised'] += 1
             raise
         post['returned'] += 1
-        _post_decay_time(self, target, t)
+        if len(args) + len(kw) != 1 or (kw and 'target' not in kw):
+            post['unrecognised'] = post.get('unrecognised', 0) + 1     # another call form: passed through un-judged
+            return t
+        _post_decay_time(self, args[0] if args else kw['target'], t)
         return t
     decay_time_with_postcondition.__wrapped__ = orig_dt
+    decay_time_with_postcondition.__doc__ = orig_dt.__doc__
     A.Sample.decay_time = decay_time_with_postcondition
 
-    def find_root_counted(x, f, df, *args, **kw):
+    def find_root_counted(*args, **kw):
+        """find_root(x, f, df, ...): counts the derivative evaluations (one per Newton step) and lets the
+        acceptance probe degrade the returned root.  A call of another form passes through untouched."""
+        fr = _state['fr']
+        fr['calls'] += 1
+        if len(args) >= 3 and callable(args[1]) and callable(args[2]):
+            f, df = args[1], args[2]
+            place = 'args'
+        elif callable(kw.get('f')) and callable(kw.get('df')):
+            f, df = kw['f'], kw['df']
+            place = 'kw'
+        else:
+            fr['unrecognised'] = fr.get('unrecognised', 0) + 1
+            return orig_fr(*args, **kw)
         n = [0]
 
         def counted_df(t):
             n[0] += 1
             return df(t)
-        fr = _state['fr']
-        fr['calls'] += 1
+        if place == 'args':
+            args = args[:2] + (counted_df,) + args[3:]
+        else:
+            kw = dict(kw, df=counted_df)
         try:
-            out = orig_fr(x, f, counted_df, *args, **kw)
+            out = orig_fr(*args, **kw)
             if _state['inject'] is not None:
-                out = _state['inject'](out[0], f)   # acceptance probe: hand decay_time a degraded root
+                try:
+                    root = out[0]
+                except Exception:  # noqa - another return form: not degradable
+                    fr['unrecognised'] = fr.get('unrecognised', 0) + 1
+                    return out
+                out = _state['inject'](root, f)   # acceptance probe: hand decay_time a degraded root
             return out
         finally:
             fr['iterations'] += n[0]
             fr['maxit'] = max(fr['maxit'], n[0])
             if n[0] >= 20:
                 fr['exhausted'] += 1
-    find_root_counted.__wrapped__ = orig_fr
-    A.find_root = find_root_counted
+    if orig_fr is not None:
+        find_root_counted.__wrapped__ = orig_fr
+        find_root_counted.__doc__ = getattr(orig_fr, '__doc__', None)
+        A.find_root = find_root_counted
     reach.start()
 
 
@@ -472,6 +505,11 @@ def check_decay(ctx, case):
         ctx.count('acceptance.offset_%g.%s' % (off, verdict))
     if info.get('relerr') is not None and verdict == 'accepted':
         ctx.observe('accepted.relerr_to_target', info['relerr'])
+        ctx.count('observed.positive_time_accepted')
+    if verdict == 'accepted' and A0 <= target and not info.get('unjudged_near_boundary'):
+        ctx.count('observed.returned_zero_at_or_below_target')
+    if verdict == 'runtime-error':
+        ctx.count('observed.RuntimeError')
     if info.get('unjudged_near_boundary'):
         ctx.count('unjudged.near_boundary')
     # the sibling: same request with rest_times=[0]
@@ -553,10 +591,35 @@ def finish(ctx):
     ctx.count('find_root.iterations', fr['iterations'])
     ctx.count('find_root.iteration_limit_reached', fr['exhausted'])
     ctx.observe('find_root.max_iterations_in_one_call', fr['maxit'])
+    ctx.count('contract.decay_time.unrecognised_call', _state['post'].get('unrecognised', 0))
+    ctx.count('contract.find_root.unrecognised_call', fr.get('unrecognised', 0))
+    # Source-line anchors inside decay_time / find_root are private.  Each has a counterpart in the public
+    # behaviour the oracle has seen; when the line counter stayed at zero (line reworded, moved into a helper)
+    # but the behaviour was observed, the line requirement is waived.
+    c = ctx.counters
+    seen = {'decay_time.early_exit': c.get('observed.returned_zero_at_or_below_target', 0),
+            'decay_time.acceptance_test': c.get('observed.positive_time_accepted', 0),
+            'decay_time.raise_RuntimeError': c.get('observed.RuntimeError', 0)}
+    for label, n in seen.items():
+        if n and not c.get('reach.' + label):
+            ctx.count('anchor_missing.reach.' + label)
+            ctx.note('line anchor %r did not fire; the corresponding public behaviour was observed %d times: '
+                     'requirement waived' % (label, n))
+    if fr['calls'] == 0 and _state['post']['returned']:
+        # decay_time answers without going through the module-level find_root (inlined / private solver):
+        # the iteration counter and the acceptance probe, which ride on that call, have nothing to observe
+        # (the RuntimeError refusal is normally reached through that probe only)
+        for name in ('find_root.iterations', 'acceptance.injected', 'reach.decay_time.raise_RuntimeError'):
+            ctx.count('anchor_missing.' + name)
+        ctx.note('Sample.decay_time returned %d answers without calling activation.find_root: the Newton-step '
+                 'counter and the degraded-root acceptance probe are not applicable and are waived; every returned '
+                 'time is still judged against the independent sum of exponentials' % _state['post']['returned'])
     ctx.require('postcondition.decay_time.returned', 1, 'the postcondition on Sample.decay_time must have been evaluated')
     ctx.require('find_root.iterations', 1, 'the Newton iteration must have been observed')
     ctx.require('reach.decay_time.early_exit', 1, 'the early exit (already at/below target) must be reached')
     ctx.require('reach.decay_time.acceptance_test', 1, 'the 0.1% acceptance test must be reached')
+    ctx.require('observed.returned_zero_at_or_below_target', 1, 'a request at or above the activity at removal must have returned 0')
+    ctx.require('observed.positive_time_accepted', 1, 'a positive decay time must have been judged inside the 0.1% band')
     ctx.require('lists.nonzero_minimum', 1, 'rest-time lists without 0 must be exercised')
     ctx.require('outcome.accepted', 1, 'at least one returned time must have been judged correct')
     ctx.require('acceptance.injected', 1, 'the acceptance probe must have degraded at least one root')
@@ -585,7 +648,7 @@ def classify(rec):
             if (d.get('overflow_ratio') or 0) > 700 and not d.get('via_find_root'):
                 # exp(La*To) while reconstructing the activity at removal from the smallest rest time
                 return 'c15.rest-time-overflow'
-            if (d.get('overflow_exponent_bound') or 0) > 700 and d.get('where') == '<genexpr>':
+            if (d.get('overflow_exponent_bound') or 0) > 700 and d.get('where') != 'find_root':
                 # the same reconstruction evaluated at the (negative) initial guess of a negligible product
                 return 'c15.rest-time-overflow'
             if d.get('via_find_root') and sib in ('accepted', 'runtime-error'):
